@@ -1,4 +1,4 @@
-import OntVerif.Proofs.Tx
+import OntVerif.Proofs.TxRt
 /-!
 # C19 — Transaction encoding is canonical and its hash binds the signed content
 
@@ -169,6 +169,63 @@ theorem C19_size (R : Rlp) (s : Src) (w : s.wf) (t : Tx) (s' : Src) (h : deseria
     rw [(fromEip155_ok hfrom).2.2.2.2.2]
     exact Nat.zero_le _
 
+/-! ### The converse direction: every well-formed field tuple's encoding is accepted and decodes to that tuple -/
+
+theorem C19_serTx_mkTx (u : TxU) (sigs : List (Bytes × Bytes)) (hw : wfFields u sigs = true) :
+    serTx (mkTx u sigs) = serUnsigned u ++ serSigs sigs := by
+  unfold serTx mkTx Tx.unsigned
+  simp only
+  split
+  · rename_i e he
+    have := (wfFields_unpack hw).2.1
+    rw [he] at this
+    simp [wfPayload] at this
+  · rfl
+
+/-- **Round trip (deploy / invoke)**: for every field tuple that satisfies the decidable predicate `wfFields`
+(version 0; type `d1`/`d2` with an invoke payload or `d0` with a deploy payload passing `validateDeployCode`;
+nonce < 2^32, gas price and limit < 2^64, 20-byte payer; at most 16 signature entries; encoding at most `MAX_TX_SIZE`
+bytes), `Transaction.Deserialization` started at the encoding — at any position of any buffer — returns exactly that
+tuple (with `Raw` = the encoding and the hash input = the unsigned part) and consumes exactly the encoding. -/
+theorem C19_roundtrip (R : Rlp) (u : TxU) (sigs : List (Bytes × Bytes)) (hw : wfFields u sigs = true)
+    (pre rest : Bytes) (hlen : (pre ++ serTx (mkTx u sigs) ++ rest).length < two64) :
+    deserialize R ⟨pre ++ serTx (mkTx u sigs) ++ rest, pre.length⟩
+      = .ok (mkTx u sigs) ⟨pre ++ serTx (mkTx u sigs) ++ rest, pre.length + (serTx (mkTx u sigs)).length⟩ := by
+  rw [C19_serTx_mkTx u sigs hw] at hlen ⊢
+  exact deserialize_fwd R u sigs hw _ _ hlen (by simp) (seg_of_append pre _ rest)
+
+/-- the same through `TransactionFromRawBytes` on exactly the encoding -/
+theorem C19_roundtrip_raw (R : Rlp) (u : TxU) (sigs : List (Bytes × Bytes)) (hw : wfFields u sigs = true) :
+    fromRawBytes R (serTx (mkTx u sigs))
+      = .ok (mkTx u sigs) ⟨serTx (mkTx u sigs), (serTx (mkTx u sigs)).length⟩ := by
+  have h := C19_roundtrip R u sigs hw [] []
+  simp only [List.nil_append, List.append_nil, List.length_nil, Nat.zero_add] at h
+  have hsz : (serTx (mkTx u sigs)).length ≤ MAX_TX_SIZE := by
+    rw [C19_serTx_mkTx u sigs hw]; exact (wfFields_unpack hw).2.2.2.2.2.2.2
+  have hmax : MAX_TX_SIZE < two64 := by decide
+  unfold fromRawBytes
+  rw [if_neg (by omega)]
+  exact h (by omega)
+
+/-- `wfFields` is exactly what the decoder guarantees: every accepted Ontology-shape transaction is `mkTx` of a
+well-formed tuple.  Together with `C19_roundtrip`: the decoder's image is the set of well-formed tuples, and
+encode/decode are mutually inverse between well-formed tuples and accepted byte strings. -/
+theorem C19_decoded_is_wf (R : Rlp) (s : Src) (w : s.wf) (t : Tx) (s' : Src)
+    (h : deserialize R s = .ok t s') (hty : t.txType ≠ 0xd3) :
+    wfFields t.unsigned t.sigs = true ∧ t = mkTx t.unsigned t.sigs := by
+  obtain ⟨adv, post⟩ := post_of_ok w h
+  rcases post with ⟨hseg, hraw, hhi, hwf, hsz, hsg⟩ | ⟨_, e, _, _, hfrom, _⟩
+  · obtain ⟨h1, _, h3, h4, h5, h6, _, _, hpl⟩ := hwf
+    constructor
+    · unfold wfFields
+      rw [hseg] at hsz
+      simp only [Bool.and_eq_true, beq_iff_eq, decide_eq_true_eq]
+      exact ⟨⟨⟨⟨⟨⟨⟨h1, hpl⟩, h3⟩, h4⟩, h5⟩, h6⟩, hsg⟩, hsz⟩
+    · cases t
+      simp only [mkTx, Tx.unsigned] at hraw hhi hseg ⊢
+      rw [hraw, hhi, hseg]
+  · exact absurd (fromEip155_ok hfrom).2.1 hty
+
 /-! ### Non-vacuity: the decoder accepts concrete, non-trivial inputs (so the implications above are not empty),
 and the library assumption is satisfiable -/
 
@@ -184,6 +241,10 @@ example : exRlp.canonical := by
   · rename_i hc; injection h with h; subst h; exact hc.symm
   · cases h
 
+
+/-- a well-formed deploy tuple with two signature entries (hypothesis of `C19_roundtrip`) -/
+example : wfFields ⟨0, 0xd0, 7, 2500, 20000, List.replicate 20 0xaa,
+    .deploy [0x51, 0x52] 1 [110] [118] [97] [101] [100]⟩ [([1, 2], [3]), ([], [4, 5])] = true := by decide +kernel
 
 /-- invoke transaction (code `ab cd`) with one signature entry, embedded at offset 1 of a longer buffer -/
 def exBytes : Bytes := [9, 0x00, 0xd1] ++ List.replicate 40 0 ++ [2, 0xab, 0xcd, 0, 1, 1, 0x51, 0, 7, 7]
